@@ -108,8 +108,30 @@ class Models:
     def call(self, e, st, args):
         m = self.table.get(e["fn"])
         if m is None:
-            return None
+            return self._ops_call(e, st, args)
         return m(e, st, args)
+
+    _OPS = {"add": "Add", "sub": "Sub", "mul": "Mul", "div": "Div", "rem": "Rem", "bitand": "BitAnd", "bitor": "BitOr",
+            "bitxor": "BitXor", "shl": "Shl", "shr": "Shr"}
+
+    def _ops_call(self, e, st, args):
+        """operator traits on integers called as functions, typically with a reference operand (`acc | b` with b: &u8,
+        `<u8 as BitOr<&u8>>::bitor`): the primitive operator on the referenced values"""
+        import re
+        fn = e.get("resolved") or e["fn"]
+        m = re.match(r"^<&?(?:'\w+ )?(\w+) as std::ops::(\w+)(?:<[^>]*>)?>::(\w+)$", fn)
+        if not m or m.group(3) not in self._OPS or len(args) != 2:
+            return None
+        vals = []
+        for a in args:
+            if isinstance(a, RefV):
+                a = self.I.read_loc(st, a.key, a.path)
+            if isinstance(a, MemRefV):
+                return None
+            if not isinstance(a, IntV):
+                return None
+            vals.append(a)
+        return [(s, "val", v) for s, v in self.I.binop(st, self._OPS[m.group(3)], vals[0], vals[1], e, vals[0].ty)]
 
     # ---------------------------------------------------------------- helpers
     def length_of(self, v):
@@ -148,6 +170,14 @@ class Models:
         if isinstance(v, IterV):
             return [(st, "val", v)]
         if isinstance(v, SliceV):
+            # `for x in &mut buf[..]` yields references to the bytes
+            at = None
+            try:
+                at = self.I.F.types[e["args"][0]["t"]]["s"]
+            except (KeyError, IndexError, TypeError):
+                pass
+            if at and at.startswith("&mut ") and e.get("name") == "into_iter":
+                return [(st, "val", IterV(("bytes_mut", v)))]
             return [(st, "val", IterV(("bytes", v)))]
         if isinstance(v, ArrV):
             return [(st, "val", IterV(("items", tuple(v.items))))]
@@ -174,9 +204,18 @@ class Models:
                 it = IterV(("custom", it))
             else:
                 return None
-        if kind in ("map", "map_while"):
+        # the adaptor sits on top of an iterator that may already be positioned past some elements (skip(..)): keep the position
+        if kind == "map":
+            return [(st, "val", IterV((kind, it.seq, a[1]), it.pos))]
+        if kind == "map_while":
+            if not (it.pos.is_const() and it.pos.c == 0):
+                return None
             return [(st, "val", IterV((kind, it.seq, a[1])))]
-        return [(st, "val", IterV((kind, it.seq)))]
+        if kind == "enumerate":
+            if not (it.pos.is_const() and it.pos.c == 0):
+                return None      # indices would have to be rebased
+            return [(st, "val", IterV((kind, it.seq)))]
+        return [(st, "val", IterV((kind, it.seq), it.pos))]
 
     def m_last(self, e, st, a):
         v = a[0]
@@ -325,7 +364,12 @@ class Models:
 
     def m_from_be_bytes(self, e, st, a, little=False):
         bs = self._bytes_of(st, a[0], e)
-        ty = self.I.int_ty(e)
+        ty = self.I.int_ty(e) if isinstance(e.get("t"), int) else None
+        if ty is None:
+            # called through a function value (`.map(u16::from_be_bytes)`): the integer type is part of the path
+            import re as _re
+            m_ = _re.search(r"<impl (\w+)>::from_[bl]e_bytes", e.get("fn") or "")
+            ty = m_.group(1) if m_ else None
         if bs is None or ty is None:
             return None
         if little:
@@ -822,9 +866,11 @@ class Models:
             st.pc.append(le(f, 31))
             return [(st, "val", IntV(f, "u8"))]
         if name == "supports_feedback_type":
+            from . import roles
+            fk = roles.fci_kind_fields(self.I.F)
             return [(st, "val", StructV("feedback::FciFeedbackPacketType", "FciFeedbackPacketType",
-                                        {"transport": BoolV(flit(("b", (key, "transport"), True))),
-                                         "payload": BoolV(flit(("b", (key, "payload"), True)))}))]
+                                        {fk["transport"]: BoolV(flit(("b", (key, "transport"), True))),
+                                         fk["payload"]: BoolV(flit(("b", (key, "payload"), True)))}))]
         return None
 
     def _dattr(self, d, what, ty):
